@@ -53,6 +53,65 @@ ALGO = {
 }
 
 
+# quantifier written as a loop: element accepted -> (decision), rejected -> (decision), range exhausted -> result
+LOOP_SPEC = {
+    "std::all_of": ("continue", False, True),
+    "std::none_of": (False, "continue", True),
+    "std::any_of": (True, "continue", False),
+}
+
+
+def c11a_loop(ctx, tu, name, fn, algo):
+    from rules.common import LoopModel, iter_calls, Oracle
+    PM = "trompeloeil::param_matches"
+    try:
+        ls = cfg.loops(fn)
+        if len(ls) != 1:
+            raise Unknown("expected one loop over the range")
+        lm = LoopModel(fn, ls[0])
+        acc, rej, end = LOOP_SPEC[algo]
+        why = None
+        for holds in (True, False):
+            o = Oracle(calls=iter_calls("elem", {PM: holds}), any_member=True, any_call=True, any_param=True).descend_into(tu)
+            env = {}
+            res, it = lm.step(o, _range_env(fn, "elem"), at="elem")
+            want = acc if holds else rej
+            got = "continue" if res[0] == "stop" else (res[1] if res[0] == "return" else res)
+            if got != want and why is None:
+                why = "an element that %s: expected %s, code does %s" % (
+                    "is accepted" if holds else "is rejected", "go on" if want == "continue" else "result %s" % want, got)
+        o = Oracle(calls=iter_calls("end", {PM: False}), any_member=True, any_call=True, any_param=True).descend_into(tu)
+        res, it = lm.step(o, _range_env(fn, "end"), at="end")
+        if res != ("return", end) and why is None:
+            why = "when the range is exhausted the result must be %s, code does %s" % (end, res)
+        # the element predicate: param_matches(comparator, std::ref(element))
+        pm = [e for b, e in fn.events() if e["e"] == "call" and qe(e) == PM]
+        if why is None and not (len(pm) == 1 and len(pm[0]["args"]) == 2 and (tname(pm[0]["args"][1]) or "").startswith("std::ref")):
+            why = "the element predicate must be param_matches(comparator, std::ref(element))"
+        ctx.ob("C11.a", name, why is None, pattern=fn.pat, unit=tu.name, inst=fn.q,
+               detail="" if why is None else "%s as a loop: %s" % (name.split("::")[2], why))
+    except Unknown as u:
+        ctx.ob("C11.a", name, None, pattern=fn.pat, unit=tu.name, inst=fn.q, detail="cannot interpret: %s" % u)
+
+
+def _range_env(fn, at):
+    """iterator locals of a loop over a generic range (std::begin / std::end of the parameter): the moving one is
+    at an element or at the end, the other is the end"""
+    env = {}
+    touched = set()
+    for b, e in fn.events():
+        if e["e"] == "incdec" and e.get("x", [None])[:1] == ["var"]:
+            touched.add(e["x"][1])
+        if e["e"] == "call" and e.get("op") in ("++",) and (e.get("recv") or [None])[:1] == ["var"]:
+            touched.add(e["recv"][1])
+    for b, e in fn.events():
+        if e["e"] == "decl" and isinstance(e.get("init"), list) and \
+                any((tname(c) or "") in ("std::begin", "std::end", "std::cbegin", "std::cend") or
+                    (tname(c) or "").endswith("::begin") or (tname(c) or "").endswith("::end") for c in lib.tree_calls(e["init"])):
+            env[e["var"]] = ("iter", ("cur" if at == "elem" else "end") if e["var"] in touched else "end")
+    return env
+
+
 def c11a(ctx, tu):
     n = 0
     for name, (algo, nargs) in ALGO.items():
@@ -61,6 +120,13 @@ def c11a(ctx, tu):
             calls = [e for b, e in fn.events() if e["e"] == "call" and qe(e).startswith("std::") and
                      qe(e) in ("std::all_of", "std::none_of", "std::any_of", "std::equal", "std::mismatch", "std::find_if",
                                "std::is_permutation", "std::includes", "std::search")]
+            if not calls and algo in LOOP_SPEC and cfg.loops(fn):
+                c11a_loop(ctx, tu, name, fn, algo)
+                continue
+            if not calls:
+                ctx.ob("C11.a", name, None, pattern=fn.pat, unit=tu.name, inst=fn.q,
+                       detail="neither the standard algorithm nor a loop over the range was recognised")
+                continue
             ok = len(calls) == 1 and qe(calls[0]) == algo and len(calls[0]["args"]) == nargs
             why = "%s must be implemented by %s over the whole range (%d-argument form)" % (name.split("::")[2], algo, nargs)
             if ok:
